@@ -458,6 +458,17 @@ func (l *vfC08Ledger) check(a vfC08Accept) string {
 	return s
 }
 
+// vfC08Artefact is a self-contained description of one acceptance (wire bytes carry key and signature),
+// so that `./check C08 --replay <file>` can re-run it against the current tree.
+func vfC08Artefact(l *vfC08Ledger, a vfC08Accept, wire []byte) map[string]any {
+	var led []map[string]any
+	for _, e := range l.entries {
+		kb, _ := crypto.MarshalPublicKey(e.pub)
+		led = append(led, map[string]any{"key": fmt.Sprintf("%x", kb), "dom": e.dom, "typ": fmt.Sprintf("%x", e.typ), "pay": fmt.Sprintf("%x", e.pay)})
+	}
+	return map[string]any{"accepted": a.ok, "kind": a.kind, "domain": a.dom, "wire": fmt.Sprintf("%x", wire), "ledger": led}
+}
+
 // vfC08Monitor applies the statement's clauses to one acceptance; returns (class, what) or ("","").
 func vfC08Monitor(l *vfC08Ledger, a vfC08Accept) (string, string) {
 	if !a.ok {
